@@ -69,6 +69,10 @@ func checkReceiverLoop(c *Check, p *Program, rule string, fn *ssa.Function) {
 	name := FuncName(fn)
 	c.Analysed("functions", name)
 	inb := chanParam(fn)
+	// the channel parameter, also when a closure captured it (it then lives in a cell)
+	isInb := func(v ssa.Value) bool {
+		return v == ssa.Value(inb) || unspill(resolveFree(v)) == ssa.Value(inb) || unspill(v) == ssa.Value(inb)
+	}
 	unpack := p.Func("knx/knxnet", "Unpack")
 	var unpackCall *ssa.Call
 	nU := 0
@@ -178,12 +182,12 @@ func checkReceiverLoop(c *Check, p *Program, rule string, fn *ssa.Function) {
 	instrsOf(fn, func(in ssa.Instruction) {
 		switch x := in.(type) {
 		case *ssa.Send:
-			if x.Chan == ssa.Value(inb) {
+			if isInb(x.Chan) {
 				sends = append(sends, x)
 			}
 		case *ssa.Select:
 			for _, st := range x.States {
-				if st.Chan == ssa.Value(inb) {
+				if isInb(st.Chan) {
 					c.Fail(rule, name+" forwards inside a select", p.InstrPos(x), "frames can be dropped or reordered")
 				}
 			}
@@ -221,22 +225,28 @@ func checkReceiverLoop(c *Check, p *Program, rule string, fn *ssa.Function) {
 			}
 			min, _ := pathCount(s, func(in ssa.Instruction) bool {
 				x, ok := in.(*ssa.Send)
-				return ok && x.Chan == ssa.Value(inb)
+				return ok && isInb(x.Chan)
 			}, func(bb *ssa.BasicBlock) bool { return bb == lp.Header })
 			c.Decide(min >= 1, rule, name+" every decoded frame is forwarded", p.InstrPos(ifOf(b)), "every path from the success edge passes the send", "a successfully decoded frame can be skipped")
 		}
 	}
 	// deferred close is the only close of the channel
 	nClose := 0
-	instrsOf(fn, func(in ssa.Instruction) {
-		ci, ok := in.(ssa.CallInstruction)
-		if !ok || builtinName(ci) != "close" || ci.Common().Args[0] != ssa.Value(inb) {
-			return
-		}
-		nClose++
-		_, isDefer := in.(*ssa.Defer)
-		c.Decide(isDefer && in.Block() == fn.Blocks[0], rule, name+" closes inbound by a defer at entry", p.InstrPos(in), "deferred close(inbound)", "the inbound channel is not closed by a defer at the receiver's entry: a terminated receiver leaves readers waiting (or closes while still sending)")
-	})
+	for _, hf := range append([]*ssa.Function{fn}, fn.AnonFuncs...) {
+		instrsOf(hf, func(in ssa.Instruction) {
+			ci, ok := in.(ssa.CallInstruction)
+			if !ok || builtinName(ci) != "close" || !isInb(ci.Common().Args[0]) {
+				return
+			}
+			nClose++
+			d := deferredIn(fn, in)
+			isDefer := d != nil
+			if d != nil {
+				in = d
+			}
+			c.Decide(isDefer && in.Block() == fn.Blocks[0], rule, name+" closes inbound by a defer at entry", p.InstrPos(in), "deferred close(inbound)", "the inbound channel is not closed by a defer at the receiver's entry: a terminated receiver leaves readers waiting (or closes while still sending)")
+		})
+	}
 	c.Exact(rule, name+" close(inbound) sites", nClose, 1, p.Pos(fn.Pos()))
 }
 
@@ -271,7 +281,7 @@ func checkC16(c *Check, p *Program) {
 		if mi, ok := arg.(*ssa.MakeInterface); ok {
 			arg = mi.X
 		}
-		c.Decide(arg == ssa.Value(conn) && !inAnyLoop(reader.Block()), "C16.T1", tn+" one reader for the connection", p.InstrPos(reader), "bufio.NewReader(conn) outside the loop", "the buffered reader is re-created per frame (buffered bytes of the next frame are lost) or wraps something else")
+		c.Decide((arg == ssa.Value(conn) || unspill(arg) == ssa.Value(conn)) && !inAnyLoop(reader.Block()), "C16.T1", tn+" one reader for the connection", p.InstrPos(reader), "bufio.NewReader(conn) outside the loop", "the buffered reader is re-created per frame (buffered bytes of the next frame are lost) or wraps something else")
 		// uses of conn: only NewReader and logging (followed through interface conversions)
 		var walkConn func(v ssa.Value, depth int)
 		walkConn = func(v ssa.Value, depth int) {
@@ -288,8 +298,14 @@ func checkC16(c *Check, p *Program) {
 					walkConn(x, depth+1)
 				case *ssa.Phi:
 					walkConn(x, depth+1)
-				case *ssa.DebugRef, *ssa.Store, *ssa.Defer:
-					// stores: varargs of the logger
+				case *ssa.Store:
+					// stores: varargs of the logger; or the cell a closure captured the parameter in - every load of it is the connection again
+					if cell, ok := x.Addr.(*ssa.Alloc); ok && x.Val == v {
+						for _, ld := range cellLoads(cell) {
+							walkConn(ld, depth+1)
+						}
+					}
+				case *ssa.DebugRef, *ssa.Defer:
 				case *ssa.Call:
 					if x == reader {
 						continue
@@ -595,8 +611,12 @@ func checkHostInfo(c *Check, p *Program) {
 		c.Decide(okA, "C16.T5", hn+" advertises the socket's local address", p.InstrPos(in), "HostInfoFromAddress(conn.sock.LocalAddr())", "the advertised endpoint is not the socket's own local address")
 	})
 	// NAT branch: composites with only Protocol set, by network name
+	if hostFn.Signature.Results().Len() != 2 {
+		c.Fail("C16.T5", hn+" yields (HostInfo, error)", p.Pos(hostFn.Pos()), "the function that calls HostInfoFromAddress does not return the endpoint (it was merged into its caller?): the rule judges the endpoint at that function's returns and cannot follow this shape")
+		return
+	}
 	for _, r := range returnsOf(hostFn) {
-		if !p.returnMayBeNil(r, 1) {
+		if len(r.Results) != 2 || !p.returnMayBeNil(r, 1) {
 			continue
 		}
 		vals := resultValues(r, 0)
